@@ -3,3 +3,13 @@
 
 class Obj:
     pass
+
+
+class App:
+    """built by !!python/object/apply:harness.canary.mkapp [args...]"""
+    def __init__(self, args):
+        self.args = args
+
+
+def mkapp(*args):
+    return App(list(args))
